@@ -11,9 +11,13 @@ a) the read path is write-free: no file-system mutating leaf (create/open-for-wr
 b) every function that mutates files of a segment directory is reachable from the running system only through the pre-publication writers (Flusher::flush, MultiUidCompactor::run)
    or the reclaim step: with those three cut out of the call graph no segment-file writer is reachable from command/frontend/shard/query/compactor code.
 c) both L0 rotation sites take the new segment id from RangeAllocator::next_for_level; RangeAllocator::from_existing_ids seeds past the maximum existing id.
+f) reads merge in-flight segments into their scan list, so a segment's files can be opened while the flush is still writing them; the three index files whose loaders return Ok for a file cut off at
+   a record boundary and whose result a process-wide cache keeps (<uid>_<field>.zfc: CompressedColumnIndex / GlobalColumnHandleCache; <uid>.idx: ZoneIndex / GlobalZoneIndexCache; <uid>_<field>.ebm:
+   EnumBitmapIndex / GlobalEnumCache) must therefore appear atomically: each writer creates a path that is not its `path` parameter, and returns Ok only after rename(tmp, path) succeeded.
+   (table frozen from the triage of the defect, one line per file; the strict loaders - bincode / count-prefixed - reject a partial file and are not listed)
 """
-FLOOR = 9
-REQUIRED = ["C11.a", "C11.b", "C11.c", "C11/C01.g", "C11/C03.c", "C11/C05.b1", "C11/C05.b2", "C11/C05.d", "C11/C05.e"]
+FLOOR = 10
+REQUIRED = ["C11.a", "C11.b", "C11.c", "C11.f", "C11/C01.g", "C11/C03.c", "C11/C05.b1", "C11/C05.b2", "C11/C05.d", "C11/C05.e"]
 
 SEGMOD = re.compile(r"^(engine::core::(column|filter|read::catalog|time|zone|snapshot|write)::|shared::storage_header::)")
 WRITER_ROOTS = {"engine::core::write::flusher::Flusher::flush", "engine::core::compaction::multi_uid_compactor::MultiUidCompactor::run",
@@ -109,6 +113,52 @@ def run(ctx):
             bad.append(("allocator-seed-value", "next offset of a level is not seeded with (existing offset + 1) (%s)" % fmt_leaves(Lv), None))
         return bad
     ctx.run("C11.c", "K7 PROV", "L0 rotation sites / RangeAllocator", "new segments get fresh ids from the allocator", c)
+
+    ATOMIC_WRITERS = [
+        ("CompressedColumnIndex::write_to_path", ".zfc: load_from_path stops at the first short entry and returns Ok; kept by GlobalColumnHandleCache"),
+        ("CompressedColumnIndex::write_to_path_async", ".zfc (flush path)"),
+        ("ZoneIndex::write_to_path", ".idx: load_from_path returns Ok(empty) for a header-only file; kept by GlobalZoneIndexCache"),
+        ("ZoneIndex::write_to_path_async", ".idx (flush path)"),
+        ("EnumBitmapIndex::save", ".ebm: load returns Ok with fewer zones at a zone boundary; kept by GlobalEnumCache"),
+    ]
+
+    def f_(inst):
+        bad = []
+        for nm, why in ATOMIC_WRITERS:
+            b = F.fn(nm)
+            creates = [c_ for c_ in b.calls if not c_.cleanup and re.search(r"fs::File::create$|fs::OpenOptions::open$|fs::write$", c_.nname)]
+            renames = [c_ for c_ in b.calls if not c_.cleanup and re.search(r"fs::rename$", c_.nname)]
+            short = nm
+            if not creates:
+                raise AnchorMissing("file creation in %s" % nm)
+            in_place = []
+            for c_ in creates:
+                pa = c_.args[-1] if c_.nname.endswith("OpenOptions::open") else c_.args[0]
+                L = b.origins(pa)
+                # the created path must be DERIVED from the parameter (through a call), not be the parameter itself
+                if any(l[0] in ("param", "upvar") for l in L) and not any(l[0] == "call" for l in L):
+                    in_place.append(sp(b, c_.bb))
+            inst.sites.append("%s: creates %d, renames %d%s" % (short, len(creates), len(renames), " (in place: %s)" % in_place if in_place else ""))
+            if in_place:
+                bad.append(("written-in-place:%s" % short, "%s creates its final path and fills it with several writes (%s): a read of the in-flight segment can load and cache the truncated index (%s)" % (short, ", ".join(in_place), why), None))
+                continue
+            if not renames:
+                bad.append(("no-rename:%s" % short, "%s writes a temporary file but never renames it to the final path" % short, None))
+                continue
+            # rename target is the parameter; Ok is returned only past the rename's success edge
+            rn = renames[0]
+            Lt = b.origins(rn.args[1])
+            if not any(l[0] in ("param", "upvar") for l in Lt):
+                bad.append(("rename-target:%s" % short, "%s renames the temporary file to %s, not to its path parameter" % (short, fmt_leaves(Lt)), None))
+            oks = [bb for (bb, j, v, dst) in b.aggregates("result::Result", "Ok") if dst[0] == 0]
+            done = done_edge(b, rn)
+            oke = [e for (e, v) in ok_edges(b, rn)]
+            cut = oke or ([done] if done else [])
+            for ob in oks:
+                if cut and ob in b.reach(0, cut_edges=cut):
+                    bad.append(("ok-before-rename:%s" % short, "%s can return Ok without the rename having succeeded" % short, None))
+        return bad
+    ctx.run("C11.f", "K1 DOM + K7", "index-file writers (.zfc, .idx, .ebm)", "index files a reader may open before publication appear atomically", f_)
 
 
 def cmp_count(fam):
